@@ -62,9 +62,12 @@ seq_t dtw_warping_paths{{ suffix }}{{ suffix2 }}(seq_t *wps,
     if (settings->use_pruning || settings->only_ub) {
         {%- if "euclidean" == inner_dist %}
         if (ndim == 1) {
-            p.max_dist = ub_euclidean(s1, l1, s2, l2);
+            p.max_dist = ub_euclidean_euclidean(s1, l1, s2, l2);
         } else {
-            p.max_dist = ub_euclidean_ndim(s1, l1, s2, l2, ndim);
+            p.max_dist = ub_euclidean_ndim_euclidean(s1, l1, s2, l2, ndim);
+        }
+        if (settings->only_ub) {
+            return p.max_dist;
         }
         {%- else %}
         // Bound in the internal representation (sum of squares), not pow(sqrt(sum), 2)
@@ -480,7 +483,12 @@ seq_t dtw_warping_paths{{ suffix }}{{ suffix2 }}(seq_t *wps,
         rvalue = -1;
     }
 
+    {%- if "affinity" in suffix %}
     if (settings->max_dist > 0 && rvalue > settings->max_dist) {
+    {%- else %}
+    // Both values are in the internal representation (p.max_dist, not settings->max_dist).
+    if (settings->max_dist > 0 && rvalue > p.max_dist) {
+    {%- endif %}
         // DTWPruned keeps the last value larger than max_dist. Correct for this.
         rvalue = {{infinity}};
     }
